@@ -742,7 +742,7 @@ Definition ungrantable : list dop :=
   [DCreate 2; DConsume (TkInvite 1) p2; DConsume (TkInvite 1) p3; DRestart; DConsume (TkInvite 1) p4].
 Definition grantable : list dop :=
   [DCreate 1; DCreate 0; DConsume (TkInvite 1) p2; DRestart; DConsume (TkInvite 1) p3; DConsume (TkInvite 2) p3; DRestart; DConsume (TkInvite 2) p4].
-(* class 5 (open): an own invitation accepted, then a restart *)
+(* the witness of the repaired class 5: an own invitation accepted, then a restart *)
 Definition own_accepted : list dop :=
   [DCreate 0; DAccept (InviteFor 1 1 (Some 2)); DRestart; DConsume (TkInvite 1) p3; DLookup (TkInvite 1) 2; DConsume (TkInvite 1) p2].
 Lemma invdb_witnesses :
@@ -751,9 +751,9 @@ Lemma invdb_witnesses :
   spec_C19 (CInvDb 1 me0 1 ungrantable) [1; 1; 2; 1; 2; 1; 1; 0; 0; 0]%Z = false /\
   run_C19 (CInvDb 1 me0 1 grantable) = [1; 1; 1; 2; 2; 1; 1; 0; 0; 0; 2; 1; 1; 0; 0; 0]%Z /\
   spec_C19 (CInvDb 1 me0 1 grantable) (run_C19 (CInvDb 1 me0 1 grantable)) = true /\
-  run_C19 (CInvDb 1 me0 1 own_accepted) = [1; 1; 1; 0; 1; 0; 2; 1; 3; 1; 3; 1]%Z /\
-  spec_C19 (CInvDb 1 me0 1 own_accepted) (run_C19 (CInvDb 1 me0 1 own_accepted)) = false /\
-  known_C19 (CInvDb 1 me0 1 own_accepted) = [5]%Z.
+  run_C19 (CInvDb 1 me0 1 own_accepted) = [1; 1; 1; 0; 1; 0; 2; 1; 0; 0; 0; 0]%Z /\
+  spec_C19 (CInvDb 1 me0 1 own_accepted) (run_C19 (CInvDb 1 me0 1 own_accepted)) = true /\
+  spec_C19 (CInvDb 1 me0 1 own_accepted) [1; 1; 1; 0; 1; 0; 2; 1; 3; 1; 3; 1]%Z = false.
 Proof. vm_compute. repeat split; reflexivity. Qed.
 
 (* ================================================================ whole histories with restarts *)
@@ -764,14 +764,16 @@ Definition idin (i : N) (l : list (N * N * option key)) : bool := existsb (fun x
    above total) iff their sys.Invite row exists *)
 Record dagree (next total : N) (s : sys) (P : list N) : Prop := {
   da_mem : agree next total (sy_pm s) P;
-  da_owned_lt : forall tk i, In (tk, TOwned i) (pm_tokens (sy_pm s)) -> i < next;
-  da_inv_gt : forall tk i a sg, In (tk, TInvite i a sg) (pm_tokens (sy_pm s)) -> total < i;
   da_dbo_nodup : NoDup (sy_db_owned s);
-  da_dbo : forall i, i < next -> mem_n i P = existsb (N.eqb i) (sy_db_owned s);
-  da_dbo_lt : forall i, In i (sy_db_owned s) -> i < next;
   da_dbi_uniq : NoDup (map (fun x => fst (fst x)) (sy_db_invites s));
-  da_dbi : forall i, total < i -> mem_n i P = idin i (sy_db_invites s);
-  da_dbi_gt : forall x, In x (sy_db_invites s) -> total < fst (fst x);
+  (* pending = has a row; never both kinds of row *)
+  da_db : forall i, mem_n i P = existsb (N.eqb i) (sy_db_owned s) || idin i (sy_db_invites s);
+  da_excl : forall i, In i (sy_db_owned s) -> idin i (sy_db_invites s) = false;
+  da_dbo_lt : forall i, In i (sy_db_owned s) -> i < next;
+  da_dbi_rng : forall x, In x (sy_db_invites s) -> fst (fst x) < next \/ total < fst (fst x);
+  (* what the table holds has its row *)
+  da_link_o : forall tk i, In (tk, TOwned i) (pm_tokens (sy_pm s)) -> In i (sy_db_owned s);
+  da_link_i : forall tk i a sg, In (tk, TInvite i a sg) (pm_tokens (sy_pm s)) -> idin i (sy_db_invites s) = true;
   da_next : sy_next s = next }.
 
 Lemma existsb_eqb_In : forall i l, existsb (N.eqb i) l = true <-> In i l.
@@ -872,11 +874,11 @@ Lemma In_push : forall m tk t e, In e (pm_tokens (push m tk t)) -> In e (pm_toke
 Proof. intros m tk t e H. unfold push in H. cbn [pm_tokens] in H. apply in_app_or in H. destruct H as [H|[H|[]]]; auto. Qed.
 
 (* a restart: the rebuilt table agrees with the pending set again *)
-Lemma dagree_restart : forall mk next total s P, dagree next total s P -> next <= N.succ total ->
+Lemma dagree_restart : forall mk next total s P, dagree next total s P ->
   dagree next total {| sy_pm := rebuild mk s; sy_next := sy_next s; sy_db_owned := sy_db_owned s;
                        sy_db_invites := sy_db_invites s; sy_db_allowed := sy_db_allowed s |} P.
 Proof.
-  intros mk next total s P D Hn.
+  intros mk next total s P D.
   assert (Shape : forall e, In e (pm_tokens (rebuild mk s)) ->
             e = (TkOwn, TAllowed mk) \/ (exists p, e = (token_of (pm_secret (sy_pm s)) (p_pub p), TAllowed (p_key p))) \/
             (exists j, In j (sy_db_owned s) /\ e = (TkInvite j, TOwned j)) \/
@@ -888,8 +890,7 @@ Proof.
       + apply in_map_iff in H. destruct H as [j [E Hj]]. right. right. left. exists j. auto.
       + apply in_map_iff in H. destruct H as [[[j a] sg] [E Hj]]. right. right. right. exists j, a, sg. auto. }
   constructor; cbn [sy_pm sy_db_owned sy_db_invites sy_next]; try apply D.
-  - (* the table *)
-    constructor.
+  - constructor.
     + intros e i Hin He. destruct (Shape e Hin) as [E|[[p E]|[[j [_ E]]|[j [a [sg [_ E]]]]]]]; subst e; cbn [fst] in He.
       * discriminate He.
       * exfalso. eapply token_of_not_invite. exact He.
@@ -902,28 +903,15 @@ Proof.
       change ((TkOwn, TAllowed mk) :: ?l) with ([(TkOwn, TAllowed mk)] ++ l).
       rewrite !cntr_app, cntr_allowed_map, (cntr_owned_map i _ (da_dbo_nodup _ _ _ _ D)), (cntr_invite_map i _ (da_dbi_uniq _ _ _ _ D)).
       unfold cntr at 1. cbn [filter]. unfold registered at 1. cbn [fst token_eqb andb length plus].
-      destruct (N.ltb i next) eqn:Li.
-      * apply N.ltb_lt in Li.
-        assert (X : idin i (sy_db_invites s) = false).
-        { destruct (idin i (sy_db_invites s)) eqn:E; [|reflexivity]. apply idin_In in E. apply in_map_iff in E.
-          destruct E as [x [Ex Hx]]. pose proof (da_dbi_gt _ _ _ _ D x Hx). lia. }
-        rewrite X, <- (da_dbo _ _ _ _ D i Li). destruct (mem_n i P); reflexivity.
-      * apply N.ltb_ge in Li.
-        assert (X : existsb (N.eqb i) (sy_db_owned s) = false).
-        { apply existsb_eqb_notin. intro H. pose proof (da_dbo_lt _ _ _ _ D i H). lia. }
-        rewrite X. destruct (N.ltb total i) eqn:Lt.
-        -- apply N.ltb_lt in Lt. rewrite <- (da_dbi _ _ _ _ D i Lt). destruct (mem_n i P); reflexivity.
-        -- apply N.ltb_ge in Lt.
-           assert (Y : idin i (sy_db_invites s) = false).
-           { destruct (idin i (sy_db_invites s)) eqn:E; [|reflexivity]. apply idin_In in E. apply in_map_iff in E.
-             destruct E as [x [Ex Hx]]. pose proof (da_dbi_gt _ _ _ _ D x Hx). lia. }
-           rewrite Y. destruct (mem_n i P) eqn:M; [|reflexivity].
-           destruct (ag_ids _ _ _ _ (da_mem _ _ _ _ D) i M); lia.
+      rewrite (da_db _ _ _ _ D i).
+      destruct (existsb (N.eqb i) (sy_db_owned s)) eqn:Eo; cbn [orb].
+      * apply existsb_eqb_In in Eo. rewrite (da_excl _ _ _ _ D i Eo). reflexivity.
+      * destruct (idin i (sy_db_invites s)); reflexivity.
     + apply (ag_ids _ _ _ _ (da_mem _ _ _ _ D)).
   - intros tk i Hin. destruct (Shape _ Hin) as [E|[[p E]|[[j [Hj E]]|[j [a [sg [_ E]]]]]]]; try discriminate E.
-    inversion E; subst. apply (da_dbo_lt _ _ _ _ D). exact Hj.
+    inversion E; subst. exact Hj.
   - intros tk i a sg Hin. destruct (Shape _ Hin) as [E|[[p E]|[[j [_ E]]|[j [a' [sg' [Hj E]]]]]]]; try discriminate E.
-    inversion E; subst. apply (da_dbi_gt _ _ _ _ D _ Hj).
+    inversion E; subst. apply idin_In. apply in_map_iff. eexists. split; [|exact Hj]. reflexivity.
 Qed.
 
 Lemma filter_neq_existsb : forall i inv l, existsb (N.eqb i) (filter (fun j => negb (N.eqb j inv)) l) = existsb (N.eqb i) l && negb (N.eqb i inv).
@@ -963,9 +951,23 @@ Proof.
   - apply IH. intro H. apply Hx. right. exact H.
 Qed.
 
+(* no registration of i is left once its count is zero *)
+Lemma no_entry_when_gone : forall next total m P i tk t, agree next total m P -> mem_n i P = false ->
+  In (tk, t) (pm_tokens m) -> (t = TOwned i \/ exists a sg, t = TInvite i a sg) -> False.
+Proof.
+  intros next total m P i tk t A M Hin Ht.
+  assert (Etk : tk = TkInvite i).
+  { destruct Ht as [E|[a [sg E]]]; subst t.
+    - apply (proj1 (ag_placed _ _ _ _ A _ Hin) i). reflexivity.
+    - apply (proj2 (ag_placed _ _ _ _ A _ Hin) i a sg). reflexivity. }
+  subst tk.
+  pose proof (cntr_pos i _ _ Hin (ag_under _ _ _ _ A _ i Hin eq_refl)) as C.
+  rewrite (ag_count _ _ _ _ A i), M in C. lia.
+Qed.
+
 (* THE whole-history theorem for the table with its database: restarts and default rooms included *)
 Lemma spec_dops_run : forall mk total ops next s P, dagree next total s P ->
-  next + n_dcreates ops = N.succ total -> dops_ok total ops = true ->
+  next + n_dcreates ops = N.succ total -> dops_ok next total ops = true ->
   spec_dops (pm_app (sy_pm s)) P ops (run_dops mk s ops) = true.
 Proof.
   intros mk total. induction ops as [|o ops IH]; intros next s P D Hn Ok; [reflexivity|].
@@ -977,70 +979,69 @@ Proof.
     cbn [spec_dops dop_ok dpending_after andb]. unfold zn. rewrite N2Z.id.
     assert (NP : mem_n next P = false).
     { destruct (mem_n next P) eqn:M; [|reflexivity]. destruct (ag_ids _ _ _ _ A next M); lia. }
+    assert (Nd : idin next (sy_db_invites s) = false).
+    { pose proof (da_db _ _ _ _ D next) as X. rewrite NP in X. symmetry in X. apply orb_false_iff in X. apply X. }
+    assert (No : ~ In next (sy_db_owned s)) by (intro H; pose proof (da_dbo_lt _ _ _ _ D next H); lia).
     set (s' := {| sy_pm := create_invite (sy_pm s) next; sy_next := N.succ next; sy_db_owned := sy_db_owned s ++ [next];
                   sy_db_invites := sy_db_invites s; sy_db_allowed := sy_db_allowed s |}).
     change (pm_app (sy_pm s)) with (pm_app (sy_pm s')). apply (IH (N.succ next)); [|lia|exact Ok].
     constructor; cbn [sy_pm sy_db_owned sy_db_invites sy_next s'].
     + apply agree_create; assumption.
-    + intros t i Hin. apply In_push in Hin. destruct Hin as [Hin|E]; [pose proof (da_owned_lt _ _ _ _ D _ _ Hin); lia | inversion E; lia].
-    + intros t i a sg Hin. apply In_push in Hin. destruct Hin as [Hin|E]; [eapply (da_inv_gt _ _ _ _ D); exact Hin | discriminate E].
-    + apply NoDup_snoc.
-      * exact (da_dbo_nodup _ _ _ _ D).
-      * intro H. pose proof (da_dbo_lt _ _ _ _ D next H). lia.
-    + intros i Hi. rewrite mem_n_cons, existsb_app. cbn [existsb]. rewrite orb_false_r.
-      destruct (N.eqb i next) eqn:E; cbn [orb].
-      * rewrite orb_true_r. reflexivity.
-      * rewrite orb_false_r. apply N.eqb_neq in E. apply (da_dbo _ _ _ _ D). lia.
-    + intros i Hin. apply in_app_or in Hin. destruct Hin as [Hin|[Hin|[]]]; [pose proof (da_dbo_lt _ _ _ _ D i Hin); lia | lia].
+    + apply NoDup_snoc; [exact (da_dbo_nodup _ _ _ _ D) | exact No].
     + exact (da_dbi_uniq _ _ _ _ D).
-    + intros i Hi. rewrite mem_n_cons. assert (E : N.eqb i next = false) by (apply N.eqb_neq; lia). rewrite E. apply (da_dbi _ _ _ _ D). exact Hi.
-    + exact (da_dbi_gt _ _ _ _ D).
+    + intros i. rewrite mem_n_cons, existsb_app, (da_db _ _ _ _ D i). cbn [existsb]. rewrite orb_false_r.
+      destruct (N.eqb i next); destruct (existsb (N.eqb i) (sy_db_owned s)); destruct (idin i (sy_db_invites s)); reflexivity.
+    + intros i Hin. apply in_app_or in Hin. destruct Hin as [Hin|[Hin|[]]]; [apply (da_excl _ _ _ _ D); exact Hin | subst i; exact Nd].
+    + intros i Hin. apply in_app_or in Hin. destruct Hin as [Hin|[Hin|[]]]; [pose proof (da_dbo_lt _ _ _ _ D i Hin); lia | lia].
+    + intros x Hx. destruct (da_dbi_rng _ _ _ _ D x Hx); [left; lia | right; assumption].
+    + intros t i Hin. apply In_push in Hin. apply in_or_app. destruct Hin as [Hin|E]; [left; eapply (da_link_o _ _ _ _ D); exact Hin | right; inversion E; left; reflexivity].
+    + intros t i a sg Hin. apply In_push in Hin. destruct Hin as [Hin|E]; [eapply (da_link_i _ _ _ _ D); exact Hin | discriminate E].
     + reflexivity.
   - (* accept *)
     cbn [n_dcreates] in Hn.
     destruct b as [|inv a sg]; cbn [accept_invite].
     + cbn [spec_dops dop_ok dpending_after zn Z.of_N Z.eqb andb]. cbn [dops_ok] in Ok. apply (IH next); assumption.
-    + cbn [dops_ok] in Ok. apply andb_true_iff in Ok. destruct Ok as [Oid Ok]. apply N.ltb_lt in Oid.
+    + cbn [dops_ok] in Ok. apply andb_true_iff in Ok. destruct Ok as [Oid Ok].
+      assert (Rng : inv < next \/ total < inv) by (apply orb_true_iff in Oid; destruct Oid as [O|O]; apply N.ltb_lt in O; auto).
       destruct (N.eqb a (pm_app (sy_pm s))) eqn:E.
       2:{ cbn [spec_dops dop_ok dpending_after zn Z.of_N Z.eqb andb]. apply (IH next); assumption. }
       assert (Pm : mem_n inv P = existsb (registered inv) (pm_tokens (sy_pm s))).
       { rewrite existsb_cntr, (ag_count _ _ _ _ A inv). destruct (mem_n inv P); reflexivity. }
-      assert (Pd : mem_n inv P = idin inv (sy_db_invites s)) by (apply (da_dbi _ _ _ _ D); exact Oid).
       destruct (existsb (registered inv) (pm_tokens (sy_pm s))) eqn:X.
-      * (* already known: the row exists too, nothing changes *)
+      * (* already known: nothing is written *)
         cbn [spec_dops dop_ok dpending_after zn Z.of_N Z.eqb Pos.eqb]. rewrite E. cbn [andb].
-        assert (Xd : existsb (fun x : N * N * option key => N.eqb (fst (fst x)) inv) (sy_db_invites s) = true)
-          by (change (idin inv (sy_db_invites s) = true); rewrite <- Pd, Pm; reflexivity).
-        rewrite Xd.
-        set (s' := {| sy_pm := sy_pm s; sy_next := sy_next s; sy_db_owned := sy_db_owned s;
-                      sy_db_invites := sy_db_invites s; sy_db_allowed := sy_db_allowed s |}).
-        change (pm_app (sy_pm s)) with (pm_app (sy_pm s')). apply (IH next); [|exact Hn|exact Ok].
-        constructor; cbn [sy_pm sy_db_owned sy_db_invites sy_next s']; try apply D.
+        apply (IH next); [|exact Hn|exact Ok].
+        constructor; try apply D.
         -- apply agree_accept_known; [exact A | exact Pm].
-        -- intros i Hi. rewrite mem_n_cons. assert (Ne : N.eqb i inv = false) by (apply N.eqb_neq; pose proof (da_dbo_lt _ _ _ _ D); lia).
-           rewrite Ne. apply (da_dbo _ _ _ _ D). exact Hi.
-        -- intros i Hi. rewrite mem_n_cons. destruct (N.eqb i inv) eqn:Ei; cbn [orb]; [|apply (da_dbi _ _ _ _ D); exact Hi].
-           apply N.eqb_eq in Ei. subst i. symmetry. exact Xd.
+        -- intros i. rewrite mem_n_cons, <- (da_db _ _ _ _ D i). destruct (N.eqb i inv) eqn:Ei; cbn [orb]; [|reflexivity].
+           apply N.eqb_eq in Ei. subst i. symmetry. exact Pm.
       * (* registered now, row written now *)
+        assert (Xd : existsb (fun x : N * N * option key => N.eqb (fst (fst x)) inv) (sy_db_invites s) = false).
+        { pose proof (da_db _ _ _ _ D inv) as Y. rewrite Pm in Y. symmetry in Y. apply orb_false_iff in Y. apply Y. }
+        assert (Xo : ~ In inv (sy_db_owned s)).
+        { intro H. pose proof (da_db _ _ _ _ D inv) as Y. rewrite Pm in Y. symmetry in Y. apply orb_false_iff in Y.
+          destruct Y as [Y _]. apply existsb_eqb_In in H. rewrite H in Y. discriminate Y. }
         cbn [spec_dops dop_ok dpending_after zn Z.of_N Z.eqb Pos.eqb]. rewrite E. cbn [andb].
-        assert (Xd : existsb (fun x : N * N * option key => N.eqb (fst (fst x)) inv) (sy_db_invites s) = false)
-          by (change (idin inv (sy_db_invites s) = false); rewrite <- Pd, Pm; reflexivity).
         rewrite Xd.
         set (s' := {| sy_pm := push (sy_pm s) (TkInvite inv) (TInvite inv a sg); sy_next := sy_next s; sy_db_owned := sy_db_owned s;
                       sy_db_invites := sy_db_invites s ++ [(inv, a, sg)]; sy_db_allowed := sy_db_allowed s |}).
         change (pm_app (sy_pm s)) with (pm_app (sy_pm s')). apply (IH next); [|exact Hn|exact Ok].
         constructor; cbn [sy_pm sy_db_owned sy_db_invites sy_next s']; try apply D.
-        -- apply agree_accept_new; [exact A | exact Pm | right; exact Oid].
-        -- intros t i Hin. apply In_push in Hin. destruct Hin as [Hin|Ee]; [eapply (da_owned_lt _ _ _ _ D); exact Hin | discriminate Ee].
-        -- intros t i a0 sg0 Hin. apply In_push in Hin. destruct Hin as [Hin|Ee]; [eapply (da_inv_gt _ _ _ _ D); exact Hin | inversion Ee; subst; exact Oid].
-        -- intros i Hi. rewrite mem_n_cons. assert (Ne : N.eqb i inv = false) by (apply N.eqb_neq; lia).
-           rewrite Ne. apply (da_dbo _ _ _ _ D). exact Hi.
+        -- apply agree_accept_new; [exact A | exact Pm | exact Rng].
         -- rewrite map_app. cbn [map fst]. apply NoDup_snoc; [exact (da_dbi_uniq _ _ _ _ D)|].
            intro H. apply idin_In in H. unfold idin in H. rewrite Xd in H. discriminate H.
-        -- intros i Hi. rewrite mem_n_cons. unfold idin. rewrite existsb_app. cbn [existsb fst]. rewrite orb_false_r.
-           rewrite (N.eqb_sym inv i). destruct (N.eqb i inv); cbn [orb]; [rewrite orb_true_r; reflexivity|].
-           rewrite orb_false_r. apply (da_dbi _ _ _ _ D). exact Hi.
-        -- intros x Hx. apply in_app_or in Hx. destruct Hx as [Hx|[Hx|[]]]; [apply (da_dbi_gt _ _ _ _ D); exact Hx | subst x; exact Oid].
+        -- intros i. rewrite mem_n_cons, (da_db _ _ _ _ D i). unfold idin. rewrite existsb_app. cbn [existsb fst]. rewrite orb_false_r.
+           rewrite (N.eqb_sym inv i).
+           destruct (N.eqb i inv); destruct (existsb (N.eqb i) (sy_db_owned s)); destruct (existsb (fun x : N * N * option key => N.eqb (fst (fst x)) i) (sy_db_invites s)); reflexivity.
+        -- intros i Hi. unfold idin. rewrite existsb_app. cbn [existsb fst]. rewrite orb_false_r.
+           pose proof (da_excl _ _ _ _ D i Hi) as Ex. unfold idin in Ex. rewrite Ex. cbn [orb].
+           apply N.eqb_neq. intro Ei. subst i. contradiction.
+        -- intros x Hx. apply in_app_or in Hx. destruct Hx as [Hx|[Hx|[]]]; [apply (da_dbi_rng _ _ _ _ D); exact Hx | subst x; exact Rng].
+        -- intros t i Hin. apply In_push in Hin. destruct Hin as [Hin|Ee]; [eapply (da_link_o _ _ _ _ D); exact Hin | discriminate Ee].
+        -- intros t i a0 sg0 Hin. apply In_push in Hin. unfold idin. rewrite existsb_app. cbn [existsb fst].
+           destruct Hin as [Hin|Ee].
+           ++ pose proof (da_link_i _ _ _ _ D _ _ _ _ Hin) as L. unfold idin in L. rewrite L. reflexivity.
+           ++ inversion Ee; subst. rewrite N.eqb_refl. rewrite orb_true_r. reflexivity.
   - (* lookup *)
     cbn [n_dcreates] in Hn. cbn [dops_ok] in Ok.
     assert (Unk : forall inv, tk = TkInvite inv -> mem_n inv P = false -> get_token_type (sy_pm s) tk k = None)
@@ -1074,43 +1075,51 @@ Proof.
     assert (Pend : forall inv, tk = TkInvite inv -> mem_n inv P = true).
     { intros inv Et. destruct (mem_n inv P) eqn:M; [reflexivity|]. specialize (Unk inv Et M). discriminate Unk. }
     destruct t as [q|j|j a0 sg0].
-    + (* an allowed peer: nothing is consumed *)
-      cbn [spec_dops dop_ok zn Z.of_N Z.eqb Pos.eqb].
+    + cbn [spec_dops dop_ok zn Z.of_N Z.eqb Pos.eqb].
       assert (PA : dpending_after P (DConsume tk p) 1 0 = P) by (destruct tk; reflexivity). rewrite PA.
       rewrite (IH next s P D Hn Ok), andb_true_r. destruct tk; try reflexivity. rewrite (Pend inv eq_refl). reflexivity.
-    + (* an owned invitation j < next *)
+    + (* an owned invitation *)
       assert (Etk : tk = TkInvite j) by (apply (proj1 (ag_placed _ _ _ _ A _ Hin) j); reflexivity).
       subst tk.
-      assert (Lj : j < next) by (eapply (da_owned_lt _ _ _ _ D); exact Hin).
+      pose proof (da_link_o _ _ _ _ D _ _ Hin) as Jo.
       cbn [spec_dops dop_ok dpending_after zn Z.of_N Z.eqb Pos.eqb]. rewrite (Pend j eq_refl). cbn [andb].
       set (m1 := push (sy_pm s) (token_of (pm_secret (sy_pm s)) (p_pub p)) (TAllowed (p_key p))).
       set (m' := {| pm_app := pm_app m1; pm_secret := pm_secret m1;
                     pm_tokens := remove_first (TkInvite j) (is_owned j) (pm_tokens m1) |}).
       assert (CC : invite_accepted (sy_pm s) (TOwned j) p = Some m') by reflexivity.
       unfold consume_owned. rewrite CC.
+      assert (A' : agree next total m' (drop_n j P)).
+      { apply (agree_consume next total m1 P j (is_owned j) m').
+        - unfold m1. apply agree_push_allowed. exact A.
+        - intros x Hx. unfold registered. apply andb_true_iff in Hx. destruct Hx as [H1 H2]. rewrite H1, H2. reflexivity.
+        - exists (TkInvite j, TOwned j). split; [unfold m1, push; cbn [pm_tokens]; apply in_or_app; left; exact Hin|].
+          cbn [fst snd token_eqb is_owned]. rewrite !N.eqb_refl. reflexivity.
+        - reflexivity. }
+      assert (Gone : mem_n j (drop_n j P) = false) by (rewrite mem_n_drop, N.eqb_refl, andb_false_r; reflexivity).
+      assert (Sub : forall e, In e (pm_tokens m') -> In e (pm_tokens (sy_pm s)) \/ e = (token_of (pm_secret (sy_pm s)) (p_pub p), TAllowed (p_key p))).
+      { intros e He. unfold m' in He. cbn [pm_tokens] in He. apply remove_first_incl in He. apply In_push in He. exact He. }
       set (s' := {| sy_pm := m'; sy_next := sy_next s; sy_db_owned := filter (fun i => negb (N.eqb i j)) (sy_db_owned s);
                     sy_db_invites := sy_db_invites s; sy_db_allowed := add_allowed (sy_db_allowed s) p |}).
       change (pm_app (sy_pm s)) with (pm_app (sy_pm s')). apply (IH next); [|exact Hn|exact Ok].
       constructor; cbn [sy_pm sy_db_owned sy_db_invites sy_next s']; try apply D.
-      * apply (agree_consume next total m1 P j (is_owned j) m').
-        -- unfold m1. apply agree_push_allowed. exact A.
-        -- intros x Hx. unfold registered. apply andb_true_iff in Hx. destruct Hx as [H1 H2]. rewrite H1, H2. reflexivity.
-        -- exists (TkInvite j, TOwned j). split; [unfold m1, push; cbn [pm_tokens]; apply in_or_app; left; exact Hin|].
-           cbn [fst snd token_eqb is_owned]. rewrite !N.eqb_refl. reflexivity.
-        -- reflexivity.
-      * intros t i Hi. unfold m' in Hi. cbn [pm_tokens] in Hi. apply remove_first_incl in Hi. apply In_push in Hi.
-        destruct Hi as [Hi|Ee]; [eapply (da_owned_lt _ _ _ _ D); exact Hi | discriminate Ee].
-      * intros t i a sg Hi. unfold m' in Hi. cbn [pm_tokens] in Hi. apply remove_first_incl in Hi. apply In_push in Hi.
-        destruct Hi as [Hi|Ee]; [eapply (da_inv_gt _ _ _ _ D); exact Hi | discriminate Ee].
+      * exact A'.
       * apply NoDup_filter. exact (da_dbo_nodup _ _ _ _ D).
-      * intros i Hi. rewrite mem_n_drop, filter_neq_existsb, (da_dbo _ _ _ _ D i Hi). reflexivity.
+      * intros i. rewrite mem_n_drop, filter_neq_existsb, (da_db _ _ _ _ D i).
+        destruct (N.eqb i j) eqn:Ei; cbn [negb].
+        -- apply N.eqb_eq in Ei. subst i. rewrite (da_excl _ _ _ _ D j Jo), !andb_false_r. reflexivity.
+        -- rewrite !andb_true_r. reflexivity.
+      * intros i Hi. apply filter_In in Hi. apply (da_excl _ _ _ _ D). apply Hi.
       * intros i Hi. apply filter_In in Hi. apply (da_dbo_lt _ _ _ _ D). apply Hi.
-      * intros i Hi. rewrite mem_n_drop. assert (Ne : N.eqb i j = false) by (apply N.eqb_neq; lia).
-        rewrite Ne, andb_true_r. apply (da_dbi _ _ _ _ D). exact Hi.
-    + (* a received invitation j > total *)
+      * intros t i Hi. apply filter_In. destruct (Sub _ Hi) as [H|Ee]; [|discriminate Ee].
+        split; [eapply (da_link_o _ _ _ _ D); exact H|].
+        destruct (N.eqb i j) eqn:Ei; [|reflexivity]. apply N.eqb_eq in Ei. subst i. exfalso.
+        eapply (no_entry_when_gone next total m' (drop_n j P) j t (TOwned j) A' Gone Hi). left. reflexivity.
+      * intros t i a sg Hi. destruct (Sub _ Hi) as [H|Ee]; [eapply (da_link_i _ _ _ _ D); exact H | discriminate Ee].
+    + (* a received invitation *)
       assert (Etk : tk = TkInvite j) by (apply (proj2 (ag_placed _ _ _ _ A _ Hin) j a0 sg0); reflexivity).
       subst tk.
-      assert (Lj : total < j) by (eapply (da_inv_gt _ _ _ _ D); exact Hin).
+      pose proof (da_link_i _ _ _ _ D _ _ _ _ Hin) as Ji.
+      assert (Jo : ~ In j (sy_db_owned s)) by (intro H; rewrite (da_excl _ _ _ _ D j H) in Ji; discriminate Ji).
       destruct (match sg0 with Some k0 => N.eqb k0 (p_key p) | None => false end).
       2:{ cbn [spec_dops dop_ok dpending_after zn Z.of_N Z.eqb Pos.eqb]. rewrite (Pend j eq_refl). cbn [andb]. apply (IH next); assumption. }
       cbn [spec_dops dop_ok dpending_after zn Z.of_N Z.eqb Pos.eqb]. rewrite (Pend j eq_refl). cbn [andb].
@@ -1119,54 +1128,63 @@ Proof.
                     pm_tokens := remove_first (TkInvite j) (is_invite j) (pm_tokens m1) |}).
       assert (CC : invite_accepted (sy_pm s) (TInvite j a0 sg0) p = Some m') by reflexivity.
       unfold consume_invite. rewrite CC.
+      assert (A' : agree next total m' (drop_n j P)).
+      { apply (agree_consume next total m1 P j (is_invite j) m').
+        - unfold m1. apply agree_push_allowed. exact A.
+        - intros x Hx. unfold registered. apply andb_true_iff in Hx. destruct Hx as [H1 H2]. rewrite H1, H2. apply orb_true_r.
+        - exists (TkInvite j, TInvite j a0 sg0). split; [unfold m1, push; cbn [pm_tokens]; apply in_or_app; left; exact Hin|].
+          cbn [fst snd token_eqb is_invite]. rewrite !N.eqb_refl. reflexivity.
+        - reflexivity. }
+      assert (Gone : mem_n j (drop_n j P) = false) by (rewrite mem_n_drop, N.eqb_refl, andb_false_r; reflexivity).
+      assert (Sub : forall e, In e (pm_tokens m') -> In e (pm_tokens (sy_pm s)) \/ e = (token_of (pm_secret (sy_pm s)) (p_pub p), TAllowed (p_key p))).
+      { intros e He. unfold m' in He. cbn [pm_tokens] in He. apply remove_first_incl in He. apply In_push in He. exact He. }
       set (s' := {| sy_pm := m'; sy_next := sy_next s; sy_db_owned := sy_db_owned s;
                     sy_db_invites := filter (fun x => negb (N.eqb (fst (fst x)) j)) (sy_db_invites s);
                     sy_db_allowed := add_allowed (sy_db_allowed s) p |}).
       change (pm_app (sy_pm s)) with (pm_app (sy_pm s')). apply (IH next); [|exact Hn|exact Ok].
       constructor; cbn [sy_pm sy_db_owned sy_db_invites sy_next s']; try apply D.
-      * apply (agree_consume next total m1 P j (is_invite j) m').
-        -- unfold m1. apply agree_push_allowed. exact A.
-        -- intros x Hx. unfold registered. apply andb_true_iff in Hx. destruct Hx as [H1 H2]. rewrite H1, H2. apply orb_true_r.
-        -- exists (TkInvite j, TInvite j a0 sg0). split; [unfold m1, push; cbn [pm_tokens]; apply in_or_app; left; exact Hin|].
-           cbn [fst snd token_eqb is_invite]. rewrite !N.eqb_refl. reflexivity.
-        -- reflexivity.
-      * intros t i Hi. unfold m' in Hi. cbn [pm_tokens] in Hi. apply remove_first_incl in Hi. apply In_push in Hi.
-        destruct Hi as [Hi|Ee]; [eapply (da_owned_lt _ _ _ _ D); exact Hi | discriminate Ee].
-      * intros t i a sg Hi. unfold m' in Hi. cbn [pm_tokens] in Hi. apply remove_first_incl in Hi. apply In_push in Hi.
-        destruct Hi as [Hi|Ee]; [eapply (da_inv_gt _ _ _ _ D); exact Hi | discriminate Ee].
-      * intros i Hi. rewrite mem_n_drop. assert (Ne : N.eqb i j = false) by (apply N.eqb_neq; pose proof (da_dbo_lt _ _ _ _ D); lia).
-        rewrite Ne, andb_true_r. apply (da_dbo _ _ _ _ D). exact Hi.
+      * exact A'.
       * apply NoDup_map_filter. exact (da_dbi_uniq _ _ _ _ D).
-      * intros i Hi. rewrite mem_n_drop, filter_id_idin, (da_dbi _ _ _ _ D i Hi). reflexivity.
-      * intros x Hx. apply filter_In in Hx. apply (da_dbi_gt _ _ _ _ D). apply Hx.
+      * intros i. rewrite mem_n_drop, filter_id_idin, (da_db _ _ _ _ D i).
+        destruct (N.eqb i j) eqn:Ei; cbn [negb].
+        -- apply N.eqb_eq in Ei. subst i. rewrite (existsb_eqb_notin j _ Jo), !andb_false_r. reflexivity.
+        -- rewrite !andb_true_r. reflexivity.
+      * intros i Hi. rewrite filter_id_idin, (da_excl _ _ _ _ D i Hi). reflexivity.
+      * intros x Hx. apply filter_In in Hx. apply (da_dbi_rng _ _ _ _ D). apply Hx.
+      * intros t i Hi. destruct (Sub _ Hi) as [H|Ee]; [eapply (da_link_o _ _ _ _ D); exact H | discriminate Ee].
+      * intros t i a sg Hi. destruct (Sub _ Hi) as [H|Ee]; [|discriminate Ee].
+        rewrite filter_id_idin, (da_link_i _ _ _ _ D _ _ _ _ H). cbn [andb].
+        destruct (N.eqb i j) eqn:Ei; [|reflexivity]. apply N.eqb_eq in Ei. subst i. exfalso.
+        eapply (no_entry_when_gone next total m' (drop_n j P) j t (TInvite j a sg) A' Gone Hi). right. exists a, sg. reflexivity.
   - (* restart *)
     cbn [n_dcreates] in Hn. cbn [dops_ok] in Ok.
     cbn [spec_dops dop_ok dpending_after andb].
     set (s' := {| sy_pm := rebuild mk s; sy_next := sy_next s; sy_db_owned := sy_db_owned s;
                   sy_db_invites := sy_db_invites s; sy_db_allowed := sy_db_allowed s |}).
     change (pm_app (sy_pm s)) with (pm_app (sy_pm s')). apply (IH next); [|exact Hn|exact Ok].
-    apply dagree_restart; [exact D | lia].
+    apply dagree_restart. exact D.
 Qed.
 
 Lemma init_dagree : forall app me mk total, dagree 1 total (init_sys app me mk) [].
 Proof.
   intros. constructor; cbn [init_sys sy_pm sy_db_owned sy_db_invites sy_next].
   - apply (init_agree app me mk total).
+  - constructor.
+  - constructor.
+  - intros i. reflexivity.
+  - intros i [].
+  - intros i [].
+  - intros x [].
   - intros t i H. cbn in H. destruct H as [H|[]]. discriminate H.
   - intros t i a sg H. cbn in H. destruct H as [H|[]]. discriminate H.
-  - constructor.
-  - intros i Hi. reflexivity.
-  - intros i [].
-  - constructor.
-  - intros i Hi. reflexivity.
-  - intros x [].
   - reflexivity.
 Qed.
 
-(* HOLDS for every history of creations (with or without default room, grantable or not), acceptances
-   of foreign invitations, lookups, uses and RESTARTS: an invitation is consumed only while pending,
-   and a consumption ends it — across restarts too *)
-Theorem invdb_holds : forall app me mk ops, dops_ok (n_dcreates ops) ops = true ->
+(* HOLDS (fixes 2163820, 1e2cdf6, 1c5e321, 4354588) for every history of creations (with or without
+   default room, grantable or not), acceptances (foreign invitations and the instance's own ones),
+   lookups, uses and RESTARTS: an invitation is consumed only while pending, and a consumption ends
+   it — across restarts too *)
+Theorem invdb_holds : forall app me mk ops, dops_ok 1 (n_dcreates ops) ops = true ->
   spec_dops app [] ops (run_dops mk (init_sys app me mk) ops) = true.
 Proof.
   intros app me mk ops Ok.
@@ -1180,7 +1198,7 @@ Definition case_ok (c : c19case) : Prop :=
   | CTokens secs probes => secs_fun secs /\ forall p, In p probes -> (fst p < length secs)%nat /\ (snd p < length secs)%nat
   | CInvites _ _ _ ops => ops_ok 1 (n_creates ops) ops = true
   | CSession nonces conns => length nonces = length conns /\ NoDup nonces
-  | CInvDb _ _ _ ops => dops_ok (n_dcreates ops) ops = true
+  | CInvDb _ _ _ ops => dops_ok 1 (n_dcreates ops) ops = true
   | _ => True
   end.
 
